@@ -83,6 +83,11 @@ fn prefix(f: Fam, i: usize) -> packet::Nlri {
 
 fn nexthop(f: Fam, i: usize) -> bgp::Nexthop {
     match f {
+        // the 32-byte global + link-local form (RFC 2545): tracked by its global address
+        Fam::V6 if i == 1 => bgp::Nexthop::V6LinkLocal(
+            Ipv6Addr::new(0x2001, 0xdb8, 0xffff, 0, 0, 0, 0, 2),
+            Ipv6Addr::new(0xfe80, 0, 0, 0, 0, 0, 0, 2),
+        ),
         Fam::V6 => bgp::Nexthop::V6(Ipv6Addr::new(
             0x2001,
             0xdb8,
